@@ -185,10 +185,14 @@ package fosite
 
 //@ interface Requester.SetID
 //@   sets recv.GetID() = id
+// Setting requested scopes / audience replaces them as a set (the reference implementation drops duplicates).
+//@ spec func sameset(a []string, b []string) bool = forall x string :: insl(a, x) <==> insl(b, x)
 //@ interface Requester.SetRequestedScopes
-//@   sets recv.GetRequestedScopes() = scopes
+//@   modifies recv.GetRequestedScopes()
+//@   ensures sameset(recv.GetRequestedScopes(), scopes)
 //@ interface Requester.SetRequestedAudience
-//@   sets recv.GetRequestedAudience() = audience
+//@   modifies recv.GetRequestedAudience()
+//@   ensures sameset(recv.GetRequestedAudience(), audience)
 //@ interface Requester.SetSession
 //@   sets recv.GetSession() = session
 //@ interface Requester.GrantScope
@@ -291,3 +295,78 @@ package fosite
 //@ func IsRedirectURISecureStrict
 //@   requires redirectURI != nil
 //@   ensures [C11.http-only-local] result <==> (redirectURI.Scheme == "https" || (redirectURI.Scheme == "http" && (strings.HasSuffix(hostname_of(redirectURI.Host), ".localhost") || loopback(hostname_of(redirectURI.Host)) || hostname_of(redirectURI.Host) == "localhost")))
+
+// ---------------------------------------------------------------- fosite.Request (reference implementation of Requester)
+//@ func (*Request).GetRequestForm
+//@   ensures [C12.request-getters] result == a.Form
+//@ func (*Request).GetRequestedAt
+//@   ensures [C12.request-getters] result == a.RequestedAt
+//@ func (*Request).GetClient
+//@   ensures [C12.request-getters] result == a.Client
+//@ func (*Request).GetRequestedScopes
+//@   ensures [C12.request-getters] result == a.RequestedScope
+//@ func (*Request).GetRequestedAudience
+//@   ensures [C12.request-getters] audience == a.RequestedAudience
+//@ func (*Request).GetGrantedScopes
+//@   ensures [C12.request-getters] result == a.GrantedScope
+//@ func (*Request).GetGrantedAudience
+//@   ensures [C12.request-getters] result == a.GrantedAudience
+//@ func (*Request).GetSession
+//@   ensures [C12.request-getters] result == a.Session
+//@ func (*Request).SetSession
+//@   sets a.Session = session
+//@   ensures [C12.request-getters] a.Session == session
+//@ func (*Request).SetID
+//@   sets a.ID = id
+//@   ensures [C12.request-getters] a.ID == id
+
+//@ func (*Request).AppendRequestedScope
+//@   modifies a.RequestedScope
+//@   ensures [C12.request-scope-sets] forall x string :: insl(a.RequestedScope, x) <==> (insl(old(a.RequestedScope), x) || x == scope)
+//@   invariant loop#1 [C12.request-scope-sets] $i <= len(a.RequestedScope) && a.RequestedScope == old(a.RequestedScope) && (forall j int :: 0 <= j && j < $i ==> a.RequestedScope[j] != scope)
+//@ func (*Request).AppendRequestedAudience
+//@   modifies a.RequestedAudience
+//@   ensures [C12.request-scope-sets] forall x string :: insl(a.RequestedAudience, x) <==> (insl(old(a.RequestedAudience), x) || x == audience)
+//@   invariant loop#1 [C12.request-scope-sets] $i <= len(a.RequestedAudience) && a.RequestedAudience == old(a.RequestedAudience) && (forall j int :: 0 <= j && j < $i ==> a.RequestedAudience[j] != audience)
+//@ func (*Request).GrantScope
+//@   modifies a.GrantedScope
+//@   ensures [C12.request-scope-sets] forall x string :: insl(a.GrantedScope, x) <==> (insl(old(a.GrantedScope), x) || x == scope)
+//@   invariant loop#1 [C12.request-scope-sets] $i <= len(a.GrantedScope) && a.GrantedScope == old(a.GrantedScope) && (forall j int :: 0 <= j && j < $i ==> a.GrantedScope[j] != scope)
+//@ func (*Request).GrantAudience
+//@   modifies a.GrantedAudience
+//@   ensures [C12.request-scope-sets] forall x string :: insl(a.GrantedAudience, x) <==> (insl(old(a.GrantedAudience), x) || x == audience)
+//@   invariant loop#1 [C12.request-scope-sets] $i <= len(a.GrantedAudience) && a.GrantedAudience == old(a.GrantedAudience) && (forall j int :: 0 <= j && j < $i ==> a.GrantedAudience[j] != audience)
+//@ func (*Request).SetRequestedScopes
+//@   modifies a.RequestedScope
+//@   ensures [C12.request-scope-sets] sameset(a.RequestedScope, s)
+//@   invariant loop#1 [C12.request-scope-sets] $i <= len(s) && (forall x string :: insl(a.RequestedScope, x) <==> (exists j int :: 0 <= j && j < $i && s[j] == x))
+//@ func (*Request).SetRequestedAudience
+//@   modifies a.RequestedAudience
+//@   ensures [C12.request-scope-sets] sameset(a.RequestedAudience, s)
+//@   invariant loop#1 [C12.request-scope-sets] $i <= len(s) && (forall x string :: insl(a.RequestedAudience, x) <==> (exists j int :: 0 <= j && j < $i && s[j] == x))
+
+//@ func RemoveEmpty
+//@   ensures [C12.remove-empty] forall j int :: 0 <= j && j < len(ret) ==> ret[j] != ""
+//@   invariant loop#1 [C12.remove-empty] forall j int :: 0 <= j && j < len(ret) ==> ret[j] != ""
+
+// ---------------------------------------------------------------- C12: per-flow confinement (authorize and device endpoints)
+//@ func (*Fosite).validateAuthorizeScope
+//@   requires f != nil && request != nil
+//@   ensures [C12.authorize-scope-confined] err == nil ==> (forall j int :: 0 <= j && j < len(request.RequestedScope) ==> call(f.Config.GetScopeStrategy(ctx), request.Client.GetScopes(), request.RequestedScope[j]))
+//@   ensures [C12.authorize-scope-confined] err != nil ==> ekind(err) == "invalid_scope"
+//@   invariant loop#1 [C12.authorize-scope-confined] $i <= len(request.RequestedScope) && (forall j int :: 0 <= j && j < $i ==> call(f.Config.GetScopeStrategy(ctx), request.Client.GetScopes(), request.RequestedScope[j]))
+
+//@ func (*Fosite).validateDeviceScope
+//@   requires f != nil && request != nil
+//@   modifies request.RequestedScope
+//@   ensures [C12.device-scope-confined] err == nil ==> (forall x string :: insl(request.RequestedScope, x) ==> call(f.Config.GetScopeStrategy(ctx), request.Client.GetScopes(), x))
+//@   ensures [C12.device-scope-confined] err != nil ==> ekind(err) == "invalid_scope"
+//@   invariant loop#1 [C12.device-scope-confined] $i <= len(scopes) && (forall j int :: 0 <= j && j < $i ==> call(scopeStrategy, request.Client.GetScopes(), scopes[j]))
+
+//@ func (*Fosite).validateAudience
+//@   requires f != nil && request != nil
+//@   modifies request.GetRequestedAudience()
+//@   ensures [C12.audience-confined] err == nil ==> call(f.Config.GetAudienceStrategy(ctx), request.GetClient().GetAudience(), GetAudiences(old(request.GetRequestForm()))) == nil && sameset(request.GetRequestedAudience(), GetAudiences(old(request.GetRequestForm())))
+
+//@ func GetAudiences
+//@   pure
